@@ -95,14 +95,17 @@ def fraction (E : Env α) (ll : Pt α) (z : Nat) : Pt α :=
     else E.mercY ll.y * maxtiles
   ⟨px, py⟩
 
-/-- `maptile.At(ll, z)`, with the last-column clamp of fix 440399b:
-    `if max := uint32(1) << uint32(z); max != 0 && t.X >= max { t.X = max - 1 }`. -/
+/-- `maptile.At(ll, z)`, with the last-column clamp of fix 440399b
+    (`if t.X >= max { t.X = max - 1 }`) and the west-edge step-back
+    (`if t.X > 0 && ll[0] < 360.0*(float64(t.X)/float64(max)-0.5) { t.X-- }`), both under `max != 0`. -/
 def at_ (E : Env α) (ll : Pt α) (z : Nat) : Tile :=
   let f := fraction E ll z
   let x := E.floorU32 f.x
   let y := E.floorU32 f.y
   let max := shl32 1 z
   let x := if max ≠ 0 ∧ x ≥ max then max - 1 else x
+  -- `ll[0]/360 + 0.5` is rounded: keep the column consistent with `Bound()`'s west edge
+  let x := if max ≠ 0 ∧ x > 0 ∧ ll.x < 360 * (E.ofNat x / E.ofNat max - 1 / 2) then x - 1 else x
   ⟨x, y, z⟩
 
 /-- The longitude expression of `mercator.ToGeo`: `360.0 * (x/maxtiles - 0.5)`. -/
